@@ -91,7 +91,7 @@ class FactBuildError(Exception):
 
 class Body:
     __slots__ = ("path", "crate", "raw", "blocks", "locals", "loc", "kind", "vis", "impl_self",
-                 "impl_trait", "parent", "argc", "_defs", "_succ", "_pred", "expn")
+                 "impl_trait", "parent", "argc", "_defs", "_succ", "_pred", "expn", "generics", "upvars")
 
     def __init__(self, raw, crate):
         self.raw = raw
@@ -107,6 +107,8 @@ class Body:
         self.parent = raw.get("parent")
         self.argc = raw["argc"]
         self.expn = raw.get("expn", False)
+        self.generics = raw.get("generics", [])
+        self.upvars = raw.get("upvars")
         self._defs = None
         self._succ = None
         self._pred = None
